@@ -1,6 +1,6 @@
 #!/bin/bash
 # usage: tools/mutate.sh <patch-file> <Cxx> [<Cyy>...]   apply a patch to /repo, run the checks, always restore
-PATCH=$1; shift
+PATCH=$(realpath "$1"); shift
 cd /repo || exit 2
 if ! git diff --quiet; then echo "repo dirty, refusing"; exit 2; fi
 git apply "$PATCH" || { echo "patch does not apply"; exit 2; }
